@@ -1358,6 +1358,36 @@ def _m_replace(ip, st, recv, args, kwargs):
     yield st, Sym("str", tm.StrReplaceAll(to_term(recv), to_term(args[0]), to_term(args[1])))
 
 
+def _char_class_method(pyname):
+    """str.<pyname>() for a one-character string chr(c) with 0 <= c < 256: exact, by asking CPython about each of the
+    256 code points (ranges of code points for which the predicate holds)"""
+    def impl(ip, st, recv, args, kwargs):
+        if not is_sym(recv):
+            yield st, getattr(recv, pyname)()
+            return
+        t = recv.term
+        if t.op == "str.from_code":
+            c = t.args[0]
+            ranges, start = [], None
+            for k in range(257):
+                on = k < 256 and getattr(chr(k), pyname)()
+                if on and start is None:
+                    start = k
+                if not on and start is not None:
+                    ranges.append((start, k - 1))
+                    start = None
+            wide = tm.FunDecl("unicode.%s" % pyname, [INT], BOOL)       # code points above Latin-1: uninterpreted
+            yield st, as_value("bool", tm.Or(*([tm.And(tm.Le(tm.Int(a), c), tm.Le(c, tm.Int(b))) for a, b in ranges]
+                                               + [tm.And(tm.Le(tm.Int(256), c), wide(c))])))
+            return
+        raise Unsupported("str.%s of a symbolic string that is not chr(byte)" % pyname)
+    return impl
+
+
+for _nm in ("isalnum", "isalpha", "isdigit", "isupper", "islower", "isspace", "isascii", "isprintable"):
+    METHODS[("str", _nm)] = _char_class_method(_nm)
+
+
 @method("str", "isdecimal")
 def _m_isdecimal(ip, st, recv, args, kwargs):
     if not is_sym(recv):
